@@ -373,6 +373,31 @@ WRITTEN_SRC = {
 }
 
 
+LOCAL_SCOPE_SRC = '''
+def local_scope(kind):
+    class Ctx:
+        pass
+
+    small = typing.Annotated[Float[Duck, "a"], Is[lambda arr: arr.shape[0] < 3]]
+    if kind == "function":
+
+        @jaxtyped(typechecker=beartype.beartype)
+        def f(x: small, c: typing.Optional["Ctx"] = None):
+            return 1
+
+        return f, Ctx
+
+    class Holder:
+        Inner = Ctx
+
+        @jaxtyped(typechecker=beartype.beartype)
+        def m(self, x: small, c: typing.Optional["Inner"] = None):
+            return 1
+
+    return Holder().m, Ctx
+'''
+
+
 def written_part():
     """The same function with its annotations written in five ways (objects, every annotation a
     string, forward references nested inside Optional[...] / Tuple[...], strings inside strings):
@@ -426,6 +451,40 @@ def written_part():
         if rs != xs:
             return ("TypeCheckError", "return value", None)
         return ("returned",)
+
+    # typing.Annotated metadata (beartype validators) next to a forward reference to a name that
+    # is local to the decorating function / class body: the validator must still be enforced
+    from beartype.vale import Is
+
+    ns = dict(jaxtyped=jaxtyped, beartype=beartype, typing=typing, Float=Float, Duck=Duck, Is=Is)
+    # compiled WITHOUT this module's `from __future__ import annotations`: x's annotation is a real object
+    exec(compile(LOCAL_SCOPE_SRC, "<vf_c13_local_scope>", "exec", dont_inherit=True), ns)
+    local_scope = ns["local_scope"]
+
+    for kind in ("function", "class-body"):
+        try:
+            f, Ctx = local_scope(kind)
+        except Exception as e:  # noqa: BLE001
+            viols.append(Violation(key=f"C13:written:annotated+local-forward-ref:{kind}:decoration-raised", what=f"{type(e).__name__}: {e}"[:300], replay=dict(kind="written", style="annotated", tc="beartype")).to_json())
+            continue
+        for size, ctxarg, want in ((2, None, "returned"), (2, "ctx", "returned"), (3, None, "TypeCheckError"), (3, "ctx", "TypeCheckError")):
+            n += 1
+            try:
+                f(vec[size], Ctx() if ctxarg else None)
+                got = "returned"
+            except jaxtyping.TypeCheckError:
+                got = "TypeCheckError"
+            except Exception as e:  # noqa: BLE001
+                got = type(e).__name__
+            if got != want:
+                viols.append(
+                    Violation(
+                        key=f"C13:written:annotated+local-forward-ref:{kind}:{'not-raised' if got == 'returned' else 'raised-' + got}",
+                        what=f"x: Annotated[Float[Duck,'a'], Is[shape[0] < 3]], c: Optional['<name local to the {kind}>'] with beartype, x of size {size}: got {got}, expected {want}",
+                        replay=dict(kind="written", style="annotated", tc="beartype"),
+                    ).to_json()
+                )
+                break
 
     for tcn, tc in tcs.items():
         results = {}
